@@ -1086,7 +1086,7 @@ func scDupParams(r *h.Rng) *prog {
 }
 
 // evaluation order around calls, `new` and assignments (11.2.2, 11.2.3: the callee's VALUE is read before
-// the arguments are evaluated - otto: Dev region call_callee_late; 11.13.1 / 11.2.1: the left-hand
+// the arguments are evaluated - repaired defect, formerly region call_callee_late; 11.13.1 / 11.2.1: the left-hand
 // reference incl. CheckObjectCoercible comes before the right-hand side), and `new` on a bound function
 // whose target is a bound function (15.3.4.5.2; repaired by f83bcd0)
 func scOrder(r *h.Rng) *prog {
